@@ -86,7 +86,7 @@ theorem ctxDest_refs {al : AList} {km : List (String × String)} {feat pre : Str
 
 theorem mem_ctxAtts {i : Input} {al : AList} {mg : List String} {km : List (String × String)}
     {t : Dest × String × String × NA} (h : t ∈ ctxAtts i al mg km) :
-    (∃ as, (t.2.2.1, as) ∈ al ∧ t.2.2.2 ∈ as) ∧ (∃ c, t.2.2.2.ctx = some c) ∧
+    (∃ as, (t.2.2.1, as) ∈ al ∧ t.2.2.2 ∈ as) ∧ (∃ c, t.2.2.2.ctx = some c ∧ t.2.1 = stripSp c) ∧
     (t.1 = .lig → ∃ n, t.2.2.2.number = some n) ∧ (t.1 ≠ .lig → t.2.2.2.number = none) := by
   obtain ⟨e, he, hf⟩ := mem_flatMap.mp h
   have he' : e ∈ al := (mergeSort_perm _ _).mem_iff.mp he
@@ -96,20 +96,16 @@ theorem mem_ctxAtts {i : Input} {al : AList} {mg : List String} {km : List (Stri
   | some c =>
     rw [hc] at hfa
     simp only at hfa
-    -- the destination
-    generalize hd : (if mg.contains e.1 = true then
-        (if ((classOf km a).isNone || a.isMark) = true then none else if a.number.isSome = true then none else some Dest.mark)
-      else if (a.number.isSome && ligOK i e.1) = true then some Dest.lig
-      else if (a.number.isNone && (baseOK i e.1 || ligIn i e.1)) = true then some Dest.base
-      else none) = dest at hfa
-    cases dest with
-    | none => simp at hfa
+    cases hd : ctxDestOf i mg km e.1 a with
+    | none => rw [hd] at hfa; simp at hfa
     | some d =>
+      rw [hd] at hfa
       simp only at hfa
       split at hfa
       · simp at hfa
       · simp only [Option.some.injEq] at hfa; subst hfa
-        refine ⟨⟨e.2, he', ha⟩, ⟨c, hc⟩, ?_, ?_⟩
+        unfold ctxDestOf at hd
+        refine ⟨⟨e.2, he', ha⟩, ⟨c, hc, rfl⟩, ?_, ?_⟩
         · intro hl
           simp only at hl; subst hl
           split at hd
@@ -140,6 +136,13 @@ theorem mem_ctxAtts {i : Input} {al : AList} {mg : List String} {km : List (Stri
                 exact h3.1
               · simp at hd
 
+theorem mem_ctxAtts_of {i : Input} {al : AList} {mg : List String} {km : List (String × String)} {g : String}
+    {as : List NA} (has : (g, as) ∈ al) {a : NA} (ha : a ∈ as) {c : String} (hc : a.ctx = some c) {d : Dest}
+    (hd : ctxDestOf i mg km g a = some d) (hne : stripSp c ≠ "") : (d, stripSp c, g, a) ∈ ctxAtts i al mg km := by
+  refine mem_flatMap.mpr ⟨(g, as), (mergeSort_perm _ _).mem_iff.mpr has, ?_⟩
+  refine mem_filterMap.mpr ⟨a, ha, ?_⟩
+  have : (stripSp c == "") = false := by simpa using hne
+  simp [hc, hd, this]
 
 theorem mem_ofDest {atts : List (Dest × String × String × NA)} {d : Dest} {t : String × String × NA}
     (h : t ∈ ofDest atts d) : (d, t) ∈ atts := by
@@ -229,7 +232,7 @@ theorem ctx_sound {i : Input} {al : AList} (w : ALwf i al) {cm ck : CtxFeature} 
   obtain ⟨dd, atts, ⟨hkind, hent⟩, hatts⟩ := ctxFeatures_refs h L hL
   obtain ⟨hk, e, he, heg, cls, hcls, _, r, hr, hrm, comp, hcomp, t, ht, htc, hd⟩ := attachLookup_some hat
   obtain ⟨t0, ht0, hkne, ⟨cls0, hcls0⟩, rfl⟩ := hent e he
-  obtain ⟨⟨as', has', ha'⟩, ⟨cx, hcx⟩, hnl, hnn⟩ := mem_ctxAtts (hatts t0 ht0)
+  obtain ⟨⟨as', has', ha'⟩, ⟨cx, hcx, _⟩, hnl, hnn⟩ := mem_ctxAtts (hatts t0 ht0)
   simp only at has' ha' hcx hnl hnn
   -- the anchor in the unpruned lists
   obtain ⟨_, as, has, eas⟩ := mem_prune has'
